@@ -130,6 +130,9 @@ def c07(tier):
     defs = F.curated() + F.random_family(1400 + s, sizes(tier, 120, 1200), nmax=sizes(tier, 4, 5), fates_f=0.8)
     defs = [d for d in defs if any(t["join"] != 0 for t in d["tasks"].values())]
     run.add_mc(defs[:sizes(tier, 30, 300)], ["C07"], max_pause=1, replay=(tier != "quick"))
+    # the intended design (open finding S2 repaired in the model, no known signatures): the join and token
+    # clauses must hold outright - they are satisfiable and not vacuously strict
+    run.add_mc(defs[:sizes(tier, 30, 300)], ["C07", "C01", "C03", "C02"], max_pause=1, known=[], replay=False, intended=True)
     run.add_jobs(jobs_for(defs, {"max_nodes": sizes(tier, 2000, 8000)}, s))
     run.add_jobs(jobs_for(defs[:sizes(tier, 25, 400)], {"pause": 1, "cancel": 1, "max_nodes": sizes(tier, 1200, 5000)}, s))
     return run.finish("model_checking",
